@@ -213,7 +213,8 @@ EnumFrags == {FEnum(it) : it \in {
   \cup {[FEnum(<<En("ZA", "")>>) EXCEPT !.ub = "nope"], [FEnum(<<En("ZA", "256")>>) EXCEPT !.ub = "unsigned char"]}
 MiscFrags == {FMisc(k) : k \in {"toplevel_semi", "nested_fn", "missing_semi", "unbalanced_paren", "kw_as_ident", "asm_label", "attr_ok",
    "typedef_asm", "attr_after_paren", "attr_aligned_bad", "attr_aligned_unsup", "vla_static", "vla_init", "vla2_init", "vla_ok",
-   "scalar_double_brace", "init_missing_comma", "nullptr_assign", "const_fold_overflow_s", "const_fold_overflow_u"}}
+   "scalar_double_brace", "init_missing_comma", "nullptr_assign", "const_fold_overflow_s", "const_fold_overflow_u",
+   "static_init_addr_local", "static_init_addr_compound", "static_init_addr_index", "static_init_addr_ok"}}
 DeclFrags == SpecFrags \cup ScFrags \cup ObjFrags \cup BfFrags \cup AlignasFrags \cup ArrFrags \cup SaFrags \cup InitFrags
              \cup StrInitFrags \cup StructFrags \cup ParamFrags \cup FdeclFrags \cup RedeclFrags \cup TagFrags \cup EnumFrags
              \cup MiscFrags \cup SInitFrags
